@@ -11,6 +11,7 @@ INFO = dict(
     bounds=dict(quick="ODE / stationary / non-stationary systems with (equations, unknowns) in {(1,1),(2,2),(1,2),(2,1)}, batch size 2, weight specifications scalar / per-key dict / missing, initial-condition, boundary and observation specifications per unknown (some absent)",
                 thorough="same with batch size 3 and d=2 for the stationary system"),
     outside=["more than 2 equations / unknowns", "SPINN systems", "floating-point rounding"],
+    fresh_process=True,       # every configuration in its own process: state kept by one system loss must not leak into the next configuration's run
     assumptions=["floats are mathematical reals", "user equations are psi_e(asymmetric linear form of t, x, u_a, u_b, kappa) so that a swapped (t, x) call is visible",
                  "the single-network terms the system is compared with are the real Loss* classes (their own correctness is C03-C05)"],
 )
@@ -27,6 +28,11 @@ def configs(tier):
                 if (ne, nu) == (1, 1) and wspec == "missing": continue
                 out.append(dict(kind=kind, ne=ne, nu=nu, w=wspec, B=B, d=1))
         out.append(dict(kind=kind, ne=1, nu=1, w="scalar", B=B, d=1, plain=True))
+        # a second system of the same shape but with OTHER weights is evaluated first, in the same process: each system is composed with its own weights
+        out.append(dict(kind=kind, ne=2, nu=2, w="dict", B=B, d=1, seq=True))
+        # the user's equations return their single residual component as a bare scalar
+        out.append(dict(kind=kind, ne=2, nu=2, w="scalar", B=B, d=1, scalar_res=True))
+        out.append(dict(kind=kind, ne=1, nu=1, w="scalar", B=B, d=1, plain=True, scalar_res=True))
         # the system is CONSTRUCTED inside the traced function (declaration order of the user's dicts is preserved: keys in
         # non-alphabetical order), per-key weight dicts with distinct symbolic values, per-unknown observation slices
         out.append(dict(kind=kind, inctor=True, B=B))
@@ -163,7 +169,8 @@ def run(cfg, R):
                             LossWeightsODE, LossWeightsPDEStatio, LossWeightsPDENonStatio, LossWeightsODEDict, LossWeightsPDEDict)
     from jinns.data._Batchs import ODEBatch, PDEStatioBatch, PDENonStatioBatch
     kind, ne, nu, wspec, B, d = (cfg[k] for k in ("kind", "ne", "nu", "w", "B", "d"))
-    plain = cfg.get("plain", False)
+    plain = cfg.get("plain", False); seq = cfg.get("seq", False)
+    wrap = (lambda v: v) if cfg.get("scalar_res") else (lambda v: jnp.array([v]))
     ukeys = ["a", "b"][:nu]; ekeys = ["e0", "e1"][:ne]
     d_in = {"ode": 1, "statio": d, "nonstatio": 1 + d}[kind]
     eq_type = {"ode": "ODE", "statio": "statio_PDE", "nonstatio": "nonstatio_PDE"}[kind]
@@ -185,17 +192,17 @@ def run(cfg, R):
         class Eq(ODE):
             idx: int = eqx.field(static=True, default=0)
             def equation(self, t, u_dict, params_dict):
-                return jnp.array([psi(self.idx)(lin(self.idx, t, None, u_dict, params_dict))])
+                return wrap(psi(self.idx)(lin(self.idx, t, None, u_dict, params_dict)))
     elif kind == "statio":
         class Eq(PDEStatio):
             idx: int = eqx.field(static=True, default=0)
             def equation(self, x, u_dict, params_dict):
-                return jnp.array([psi(self.idx)(lin(self.idx, None, x, u_dict, params_dict))])
+                return wrap(psi(self.idx)(lin(self.idx, None, x, u_dict, params_dict)))
     else:
         class Eq(PDENonStatio):
             idx: int = eqx.field(static=True, default=0)
             def equation(self, t, x, u_dict, params_dict):
-                return jnp.array([psi(self.idx)(lin(self.idx, t, x, u_dict, params_dict))])
+                return wrap(psi(self.idx)(lin(self.idx, t, x, u_dict, params_dict)))
     dyn = {ek: Eq(idx=i, Tmax=1) for i, ek in enumerate(ekeys)}
 
     # per-unknown specifications (the second unknown has fewer constraints)
@@ -216,12 +223,12 @@ def run(cfg, R):
         wkw = {t: (None if t in ("observations",) else jnp.array(0.5 + 0.25 * i)) for i, t in enumerate(term_names)}
 
     if kind == "ode":
-        def mk_system():
+        def mk_system(wkw=wkw):
             return SystemLossODE(u_dict=nets, dynamic_loss_dict=dyn, initial_condition_dict=ic, loss_weights=LossWeightsODEDict(**wkw), params_dict=params)
         batch = ODEBatch(temporal_batch=jnp.arange(1, B + 1) * 0.2, obs_batch_dict=obs)
         singles = {k: LossODE(u=nets[k], dynamic_loss=None, initial_condition=ic[k], params=params.extract_params(k)) for k in ukeys}
     else:
-        def mk_system():
+        def mk_system(wkw=wkw):
             kw = dict(initial_condition_fun_dict=ic) if kind == "nonstatio" else {}
             return SystemLossPDE(u_dict=nets, dynamic_loss_dict=dyn, omega_boundary_fun_dict=bfun, omega_boundary_condition_dict=bcond,
                                  loss_weights=LossWeightsPDEDict(**wkw), params_dict=params, **kw)
@@ -233,8 +240,8 @@ def run(cfg, R):
                                       times_x_border_batch=jnp.array([[[0.3, 0.3], [0.0, 1.0]]]), obs_batch_dict=obs)
             singles = {k: LossPDENonStatio(u=nets[k], dynamic_loss=None, omega_boundary_fun=bfun[k], omega_boundary_condition=bcond[k],
                                            initial_condition_fun=ic[k], params=params.extract_params(k)) for k in ukeys}
-    name = f"{kind}/{ne}eq-{nu}unk/{wspec}" + ("/plain" if plain else "")
-    key = f"{kind}:{ne}x{nu}:{wspec}"
+    name = f"{kind}/{ne}eq-{nu}unk/{wspec}" + ("/plain" if plain else "") + ("/after-another-system" if seq else "") + ("/scalar-residual" if cfg.get("scalar_res") else "")
+    key = f"{kind}:{ne}x{nu}:{wspec}" + (":after-another-system" if seq else "") + (":scalar-residual" if cfg.get("scalar_res") else "")
     R.note(functions=["jinns.loss.%s.__post_init__/set_loss_weights/evaluate" % ("SystemLossODE" if kind == "ode" else "SystemLossPDE"),
                       "jinns.loss._loss_utils.constraints_system_loss_apply", "dynamic_loss_apply"])
     # the constructor is part of the claim (weight specifications are resolved there)
@@ -256,16 +263,16 @@ def run(cfg, R):
         k0 = ukeys[0]
         if kind == "ode":
             class PEq(ODE):
-                def equation(self, t, u, p): return jnp.array([psi(0)(1.0 * u(t, p)[0] + p.eq_params["kappa"] + 2.0 * jnp.ravel(t)[0])])
+                def equation(self, t, u, p): return wrap(psi(0)(1.0 * u(t, p)[0] + p.eq_params["kappa"] + 2.0 * jnp.ravel(t)[0]))
             pl = LossODE(u=nets[k0], dynamic_loss=PEq(Tmax=1), initial_condition=ic[k0], loss_weights=LossWeightsODE(**wkw), params=params.extract_params(k0))
         elif kind == "statio":
             class PEq(PDEStatio):
-                def equation(self, x, u, p): return jnp.array([psi(0)(1.0 * u(x, p)[0] + p.eq_params["kappa"] + 3.0 * x[0])])
+                def equation(self, x, u, p): return wrap(psi(0)(1.0 * u(x, p)[0] + p.eq_params["kappa"] + 3.0 * x[0]))
             pl = LossPDEStatio(u=nets[k0], dynamic_loss=PEq(Tmax=1), omega_boundary_fun=bfun[k0], omega_boundary_condition=bcond[k0],
                                loss_weights=LossWeightsPDEStatio(**{t: v for t, v in wkw.items() if t != "initial_condition"}), params=params.extract_params(k0))
         else:
             class PEq(PDENonStatio):
-                def equation(self, t, x, u, p): return jnp.array([psi(0)(1.0 * u(t, x, p)[0] + p.eq_params["kappa"] + 2.0 * t[0] + 3.0 * x[0])])
+                def equation(self, t, x, u, p): return wrap(psi(0)(1.0 * u(t, x, p)[0] + p.eq_params["kappa"] + 2.0 * t[0] + 3.0 * x[0]))
             pl = LossPDENonStatio(u=nets[k0], dynamic_loss=PEq(Tmax=1), omega_boundary_fun=bfun[k0], omega_boundary_condition=bcond[k0],
                                   initial_condition_fun=ic[k0], loss_weights=LossWeightsPDENonStatio(**wkw), params=params.extract_params(k0))
         def f(system, pl, params, batch):
@@ -288,7 +295,10 @@ def run(cfg, R):
         R.check(name, tr, goals, key_fn=lambda p, g: key + ":plain")
         return
 
-    def f(system, singles, params, batch):
+    other = mk_system(jax.tree_util.tree_map(lambda v: v * 3.0 + 0.0625, wkw)) if seq else None
+
+    def f(system, singles, params, batch, other):
+        if seq: other.evaluate(params, batch)          # the other system first
         tot, res = system.evaluate(params, batch)
         sing = {}
         for k in ukeys:
@@ -298,7 +308,7 @@ def run(cfg, R):
                 sk = eqx.tree_at(lambda l: l.initial_condition, sk, system.u_constraints_dict[k].initial_condition)
             sing[k] = sk.evaluate(params.extract_params(k), bk)[1]
         return tot, res, sing
-    tr = R.trace(name, f, (system, singles, params, batch), key=key + ":raises")
+    tr = R.trace(name, f, (system, singles, params, batch, other), key=key + ":raises")
     if tr is None: return
 
     def weights(A):
@@ -307,7 +317,7 @@ def run(cfg, R):
         return sysA._loss_weights
 
     def dyn_oracle(A, swap=False):
-        sysA, _, p, b_ = A
+        sysA, _, p, b_ = A[:4]
         W = weights(A)["dyn_loss"]
         tot = const(0, "Real")
         for e, ek in enumerate(ekeys):
